@@ -75,10 +75,11 @@ def stmtSize (c : Cfg) (k : Kind) (id len : Nat) (dyn : Bool) (gid : Nat) : Nat 
 
 /-- a statement-producing public call by actor `a` through logger object `lg`.
     `cont` as in `Pend`; `dyn`: dynamic-level macro; `lvl`: statement level. -/
-def frontCall (s : BSt) (a : Nat) (lgi : Nat) (kind : Kind) (lvl len cont : Nat) (dyn : Bool) (id : Nat) : BSt × String :=
+def frontCall (s : BSt) (a : Nat) (lgi : Nat) (kind : Kind) (lvl len cont : Nat) (dyn : Bool) (id : Nat)
+    (named : Bool := false) : BSt × String :=
   let lg := s.lgOf lgi
   let st : Stmt := { id := id, kind := kind, lg := lgi, lvl := lvl, ts := s.now,
-                     size := stmtSize s.cfg kind id len dyn lg.gid, actor := a }
+                     size := stmtSize s.cfg kind id len dyn lg.gid, actor := a, named := named }
   let stalled := ((s.actor a).map (·.stallArmed)).getD false
   if stalled then
     (s.setActor a (fun x => { x with stallArmed := false, pend := .stall st cont }),
@@ -111,7 +112,7 @@ def writeToSinks (s : BSt) (st : Stmt) : List Nat → BSt × Bool
       let k' := { k with wcalls := k.wcalls + 1 }
       let s1 := s.setSink sid (fun _ => k')
       if throwsAt k.wthrow k'.wcalls then (s1.emit (.wthrow sid st.id), true)
-      else writeToSinks (s1.emit (.write sid st.id st.lvl st.ts)) st rest
+      else writeToSinks (s1.emit (.write sid st.id st.lvl st.ts st.named)) st rest
     else writeToSinks s st rest
 
 def dispatch (s : BSt) (st : Stmt) : BSt × Bool := writeToSinks s st (s.lgOf st.lg).sinks
@@ -269,16 +270,17 @@ def processEvent (s : BSt) (st : Stmt) : BSt × Option String × Option Nat :=
   | .removal _ => (s, none, none)
 
 /-- `_check_failure_counter` -/
-def checkFailures (s : BSt) : BSt :=
+def checkFailures (inj : BSt → Nat → BSt) (s : BSt) : BSt :=
   s.cache.foldl (fun s i =>
     let th := s.th i
     if th.fail > 0 then
-      (s.setTh i (fun t => { t with fail := 0 })).emit
-        (.notify (if s.cfg.dropping then s!"n:dropped:{th.fail}:a{th.actor}" else s!"n:blocked:{th.fail}:a{th.actor}"))
+      -- get-and-reset first, then the report; site 8: the frontend keeps running while the notifier is called
+      inj ((s.setTh i (fun t => { t with fail := 0 })).emit
+        (.notify (if s.cfg.dropping then s!"n:dropped:{th.fail}:a{th.actor}" else s!"n:blocked:{th.fail}:a{th.actor}"))) 8
     else s) s
 
 /-- `_process_lowest_timestamp_transit_event` -/
-def processLowest (s : BSt) : BSt × Bool :=
+def processLowest (inj : BSt → Nat → BSt) (s : BSt) : BSt × Bool :=
   match lowest s with
   | none => (s, false)
   | some i =>
@@ -290,7 +292,7 @@ def processLowest (s : BSt) : BSt × Bool :=
       let s3 := s2.setTh i (fun t => { t with buf := rest })
       match flag with
       | some f =>
-        let s3' := if s3.cfg.reportBeforeFlushCleanup then checkFailures s3 else s3
+        let s3' := if s3.cfg.reportBeforeFlushCleanup then checkFailures inj s3 else s3
         let s4 := cleanupContexts s3'
         ({ s4 with flags := f :: s4.flags }, true)
       | none => (s3, true)
@@ -307,6 +309,7 @@ def hasPending (s : BSt) : BSt × Bool :=
 
 /-- total transit events after reading every cached context (site 2 before each context) -/
 def populate (inj : BSt → Nat → BSt) (s : BSt) : BSt × Nat :=
+  let s := if s.cfg.grace = 0 then s else inj s 7                      -- site 7: the backend reads the clock (only with ordering enabled)
   let tsNow := tsNowOf s
   let s0 := if s.cfg.refreshAfterSample then s else refreshCache s     -- pinned (unrepaired) order
   let s1 := inj s0 1
@@ -321,7 +324,7 @@ def batchLoop (inj : BSt → Nat → BSt) : Nat → BSt → BSt
   | fuel + 1, s =>
     let r := hasPending s
     if r.2 then r.1 else
-    let p := processLowest r.1
+    let p := processLowest inj r.1
     if !p.2 then p.1 else batchLoop inj fuel (inj p.1 4)
 
 def totalBuffered (s : BSt) : Nat := (s.ths.map (·.buf.length)).sum
@@ -330,11 +333,11 @@ def totalBuffered (s : BSt) : Nat := (s.ths.map (·.buf.length)).sum
 def poll (inj : BSt → Nat → BSt) (s : BSt) : BSt :=
   let (s1, count) := populate inj s
   if count ≠ 0 then
-    if count < s1.cfg.soft then (processLowest s1).1
+    if count < s1.cfg.soft then (processLowest inj s1).1
     else batchLoop inj (totalBuffered s1 + 64) s1
   else
     let s2 := inj s1 5
-    let s3 := checkFailures (flushSinks s2)
+    let s3 := checkFailures inj (flushSinks s2)
     let r := allEmpty s3
     if r.2 then cleanupLoggers (cleanupContexts r.1) else r.1
 
@@ -344,7 +347,7 @@ def exitLoop (inj : BSt → Nat → BSt) (tick : Nat) : Nat → BSt → BSt
   | fuel + 1, s =>
     let r := allEmpty s
     if r.2 then
-      let s1 := flushSinks (checkFailures r.1)
+      let s1 := flushSinks (checkFailures inj r.1)
       cleanupLoggers (cleanupContexts s1)
     else
       let s0 := { r.1 with now := r.1.now + tick }
